@@ -411,6 +411,36 @@ def oracle_rp(case, rec):
                 if who == "network":
                     rec.equal(rn.adjacency, rref.without_diagonal(R2),
                               "network_setter_adjacency")
+                if mode == "adaptive_neighborhood_size" and n >= 2:
+                    # the optional processing order: whatever the order,
+                    # the result is symmetric and every state gets at least
+                    # m neighbours (the guarantee checked above for the
+                    # default order); the identity order is the default
+                    perm = list(range(n))[::-1] if hk % 2 else \
+                        [(k * 7 + hk) % n for k in range(n)]
+                    if sorted(perm) != list(range(n)):
+                        perm = list(range(n))[::-1]
+                    for tag, od in (("identity", list(range(n))),
+                                    ("permuted", perm)):
+                        oko, _ = rec.call(
+                            "%s_%s_order_%s" % (who, setter, tag),
+                            getattr(obj, setter), p2,
+                            order=np.array(od, dtype=np.int32))
+                        if not oko:
+                            continue
+                        R3 = np.asarray(obj.recurrence_matrix())
+                        if tag == "identity":
+                            rec.equal(R3, R, "adaptive_identity_order_is_"
+                                      "default_" + who)
+                            continue
+                        rec.check(bool(np.array_equal(R3, R3.T)),
+                                  "adaptive_symmetric_permuted_order")
+                        deg3 = R3.sum(axis=1) - np.diag(R3)
+                        rec.check(int(deg3.min()) >= int(p2),
+                                  "adaptive_at_least_m_neighbours_permuted_"
+                                  "order" + ("_duplicates" if dup else ""),
+                                  "m=%s neighbour counts=%s order=%s" % (
+                                      p2, deg3.tolist()[:12], od[:12]))
 
 
 # ----------------------------------------------------------- cross oracle
